@@ -4,6 +4,10 @@ From PB Require Export Telegram.
 
 (* -------------------------------------------------------------------------- C09 *)
 
+(* the PROFIBUS frame format fixes the delimiter values; the generated constants must be these *)
+Definition std_delimiters_ok : bool :=
+  (SD1 =? 16) && (SD2 =? 104) && (SD3 =? 162) && (SD4 =? 220) && (ED =? 22) && (SC =? 229).
+
 (* which inputs the property quantifies over (what the real code accepts) *)
 Definition c09_domainb (h : header) (pdu : bytes) : bool :=
   wf_headerb h && all_bytesb pdu && Nat.leb (length_byte h (length pdu)) 249.
@@ -20,7 +24,7 @@ Definition c09_fc_ok (b : Z) (r : option (fcode * Z)) : bool :=
 
 Definition c09_enc_ok (h : header) (pdu rest : bytes)
            (wire : bytes) (sent : nat) (exp : option Z) (tlen : nat) (dec : option dres) : bool :=
-  bytes_eqb wire (frame_spec h pdu) &&
+  std_delimiters_ok && bytes_eqb wire (frame_spec h pdu) &&
   Nat.eqb sent (length wire) && Nat.eqb tlen sent &&
   opt_eqb exp (tx_expects_reply h) &&
   match dec with
@@ -30,7 +34,7 @@ Definition c09_enc_ok (h : header) (pdu rest : bytes)
 
 Definition c09_tok_ok (da sa : Z) (wire : bytes) (sent : nat) (exp : option Z) (tlen : nat)
            (dec : option dres) : bool :=
-  bytes_eqb wire [SD4; da; sa] && Nat.eqb sent 3 && Nat.eqb tlen 3 && opt_eqb exp None &&
+  std_delimiters_ok && bytes_eqb wire [SD4; da; sa] && Nat.eqb sent 3 && Nat.eqb tlen 3 && opt_eqb exp None &&
   match dec with
   | Some (Accept t m) => telegram_eqb t (TToken da sa) && Nat.eqb m 3
   | _ => false
@@ -38,7 +42,7 @@ Definition c09_tok_ok (da sa : Z) (wire : bytes) (sent : nat) (exp : option Z) (
 
 Definition c09_sc_ok (wire : bytes) (sent : nat) (exp : option Z) (tlen : nat)
            (dec : option dres) : bool :=
-  bytes_eqb wire [SC] && Nat.eqb sent 1 && Nat.eqb tlen 1 && opt_eqb exp None &&
+  std_delimiters_ok && bytes_eqb wire [SC] && Nat.eqb sent 1 && Nat.eqb tlen 1 && opt_eqb exp None &&
   match dec with
   | Some (Accept t m) => telegram_eqb t TShortConf && Nat.eqb m 1
   | _ => false
